@@ -331,6 +331,7 @@ func runC15(c *Ctx) {
 
 	R.Rule("R-ext-latest-ehlo", "E2+E3", "the extension map the gates consult is replaced by a fresh one on every successful EHLO and cleared by the HELO fallback: it never keeps entries of an earlier greeting", 3)
 	ruleEhloReplacesExt(c)
+	ruleStickyHandshake(c) // "the most recent EHLO reply": a failed renegotiation must keep failing
 	ruleEhloKeys(c)
 
 	R.Rule("R-ext-gate", "E3 edge-feasibility", "each ESMTP parameter token is written only on the ok edge of the matching extension lookup; REQUIRETLS/SMTPUTF8 requested but not offered return an error and send nothing", 12)
